@@ -73,15 +73,27 @@ pub enum Prior {
     Other,
     /// re-use disabled after the label of the case was sent
     SameThenDisabled,
+    /// re-use enabled, a different label sent, then an encap_ext call with the label of the case REFUSED (buffer ending
+    /// inside the extension area) and an encap call refused (3-byte buffer): nothing of it went on the wire
+    OtherThenRefused,
 }
 
-pub const PRIORS: [Prior; 7] = [Prior::Fresh, Prior::Disabled, Prior::Same, Prior::SameAtMax, Prior::SameBelowMax, Prior::Other, Prior::SameThenDisabled];
+pub const PRIORS: [Prior; 8] = [Prior::Fresh, Prior::Disabled, Prior::Same, Prior::SameAtMax, Prior::SameBelowMax, Prior::Other, Prior::SameThenDisabled, Prior::OtherThenRefused];
 
 impl Prior {
     /// may the encapsulator legitimately substitute a re-use label for `l` from this state?
     /// (only used to ACCEPT a substitution, never to demand one; the policy itself is C15's)
     pub fn may_substitute(self, l: Lbl) -> bool {
         l.is_addr() && matches!(self, Prior::Same | Prior::SameBelowMax)
+    }
+    /// what a receiver fed with the packets of the prior history remembers as last label
+    pub fn receiver_last(self, l: Lbl) -> Option<Lbl> {
+        let other = if l == L6A { L6B } else { L6A };
+        match self {
+            Prior::Fresh | Prior::Disabled => None,
+            Prior::Same | Prior::SameAtMax | Prior::SameBelowMax | Prior::SameThenDisabled => if l.is_addr() { Some(l) } else { None },
+            Prior::Other | Prior::OtherThenRefused => Some(other),
+        }
     }
 }
 
@@ -108,6 +120,13 @@ pub fn build_prior<C: CrcCalculator>(crc: C, prior: Prior, l: Lbl) -> Encapsulat
             send(&mut e, l, &mut scratch);
         }
         Prior::Other => send(&mut e, other, &mut scratch),
+        Prior::OtherThenRefused => {
+            send(&mut e, other, &mut scratch);
+            let mut tiny = [0u8; 12];
+            let _ = do_encap_ext(&mut e, &small, 0, 0x0800, l, &mut tiny, &[(0x0303, vec![1, 2, 3, 4]), (0x0202, vec![5, 6])]);
+            let mut tiny3 = [0u8; 3];
+            let _ = do_encap(&mut e, &small, 0, 0x0800, l, &mut tiny3);
+        }
         Prior::SameThenDisabled => {
             send(&mut e, l, &mut scratch);
             e.disable_re_use_label();
@@ -193,7 +212,7 @@ pub fn wf_first<C: CrcCalculator>(i: &FirstIn, out: &EncOut, buf: &[u8], sentine
         Some(t) => t,
         None => &full_mand,
     };
-    let p = match refm::parse(&buf[..n], table) {
+    let p = match refm::parse(&buf[..(n).min(buf.len())], table) {
         Ok(p) => p,
         Err(e) => {
             f.push(("unparsable".into(), format!("packet does not parse: {:?}", e)));
@@ -345,7 +364,7 @@ pub fn wf_frag(i: &FragIn, out: &EncOut, buf: &[u8], sentinel: u8) -> Vec<Fail> 
         f.push(("kind-bits".into(), format!("S/E bits say {} but the status is {}", kind.name(), out.class())));
         return f;
     }
-    let p = match refm::parse(&buf[..n], &full_mand) {
+    let p = match refm::parse(&buf[..(n).min(buf.len())], &full_mand) {
         Ok(p) => p,
         Err(e) => {
             f.push(("unparsable".into(), format!("packet does not parse: {:?}", e)));
